@@ -179,12 +179,13 @@ def avoid_collisions(context, box, containing_block, outer=True):
             # Points 3, 7 and 8
             if box_width > max_right_bound - max_left_bound:
                 # The box does not fit here
-                new_position_y = min(
+                lower_positions_y = [
                     shape.position_y + shape.margin_height()
-                    for shape in colliding_shapes)
-                if new_position_y > position_y:
+                    for shape in colliding_shapes
+                    if shape.position_y + shape.margin_height() > position_y]
+                if lower_positions_y:
                     # We can find a solution with a higher position_y
-                    position_y = new_position_y
+                    position_y = min(lower_positions_y)
                     continue
                 # No solution, we must put the box here
         break
